@@ -394,6 +394,16 @@ class EventDispatcher(object):
             #self.state_engine.notify(item, self.message_count, message.redelivered)
             #self.message_count += 1
 
+            """
+            The events the engine publishes carry a unique message_id (see
+            publish()), but a client that starts an execution the "low-level"
+            way, by publishing the start event to the event queue itself,
+            need not have set one. The id keys unacknowledged_messages and
+            becomes the correlation id of the start state's Task request, so
+            such a message is given an id of its own here.
+            """
+            if not message.message_id:
+                message.message_id = str(uuid.uuid4())
             message_id = message.message_id
             self.unacknowledged_messages[message_id] = message
             recorded = True
